@@ -344,6 +344,12 @@ func (pe *provEnv) provD(e ast.Expr, depth int) string {
 		if r, ok := pe.inlineHelper(x, depth); ok {
 			return r
 		}
+		// a helper that checks and then hands one of its operands (or a field of it) through
+		if fn, ok := calleeOf(info, x).(*types.Func); ok && fn.Pkg() == pe.pk.Types && fn.Type().(*types.Signature).Results().Len() == 1 {
+			if r, ok := pe.helperResultProv(x, 0, depth); ok {
+				return r
+			}
+		}
 		name := calleeNameOf(info, x)
 		var as []string
 		for _, a := range x.Args {
@@ -829,7 +835,11 @@ func (pe *provEnv) commandKinds(e ast.Expr) ([]string, bool) {
 					}
 				case fn == "make":
 				default:
-					exact = false
+					if ks, ok := pe.helperCommandKinds(y); ok {
+						out = append(out, ks...)
+					} else {
+						exact = false
+					}
 				}
 			default:
 				exact = false
@@ -849,8 +859,53 @@ func (pe *provEnv) commandKinds(e ast.Expr) ([]string, bool) {
 			return true
 		})
 		return out, exact
+	case *ast.CallExpr:
+		if ks, ok := pe.helperCommandKinds(x); ok {
+			return ks, true
+		}
 	}
 	return []string{"?"}, false
+}
+
+// helperCommandKinds: the kinds of the command list a helper of the package builds and returns
+// (its last statement returns the list; evaluated in the helper's own body).
+func (pe *provEnv) helperCommandKinds(call *ast.CallExpr) ([]string, bool) {
+	fn, ok := calleeOf(pe.pk.TypesInfo, call).(*types.Func)
+	if !ok || fn.Pkg() != pe.pk.Types {
+		return nil, false
+	}
+	fd := funcDeclOf(pe.pk, fn)
+	if fd == nil || fd.Body == nil || fd == pe.fd || len(fd.Body.List) == 0 {
+		return nil, false
+	}
+	last, ok := fd.Body.List[len(fd.Body.List)-1].(*ast.ReturnStmt)
+	if !ok || len(last.Results) < 1 {
+		return nil, false
+	}
+	nRet := 0
+	ast.Inspect(fd.Body, func(n ast.Node) bool {
+		if _, isLit := n.(*ast.FuncLit); isLit {
+			return false
+		}
+		if _, isRet := n.(*ast.ReturnStmt); isRet {
+			nRet++
+		}
+		return true
+	})
+	if nRet != 1 {
+		return nil, false
+	}
+	inner := newProvEnv(pe.pk, fd)
+	ks, exact := inner.commandKinds(last.Results[0])
+	if !exact || len(ks) == 0 {
+		return nil, false
+	}
+	for _, k := range ks {
+		if strings.HasPrefix(k, "param") || strings.Contains(k, "?") {
+			return nil, false
+		}
+	}
+	return ks, true
 }
 
 func calleeNameOf(info *types.Info, call *ast.CallExpr) string {
